@@ -64,7 +64,7 @@ static void vf_begin(void) {
         atexit(vf_flush);
     }
     vf_execs++;
-    if ((vf_execs & 0xFFFF) == 0) vf_flush_light();
+    if ((vf_execs & 0xFFF) == 0) vf_flush_light();
 }
 
 static void vf_class(int i) { if (i >= 0 && i < VF_MAX_CLASSES) vf_class_count[i]++; }
